@@ -30,11 +30,13 @@ SHAPE = {'cw': 2, 'tw': 2, 'char': ['ａ', 'ｂａ', 'あ'], 'type': ['R', 'RH']
                   {'token': 'あ', 'cands': [['N', 'V'], []], 'char': [], 'type': []}]}
 SPECIALS = 'aｂａあ1ｶ /\\\0'
 WSCONSTS = ['', 'R', 'G', 'HD']
+WSCONSTS_WB = ['R', 'HD', 'DH', 'RH', 'DRK', 'TKH', 'OD']     # run with the 'wb' weight profile (all boundaries predicted): several filters, in both orders
 TYPE_NAME = {'D': 'Digit', 'R': 'Roman', 'H': 'Hiragana', 'T': 'Katakana', 'K': 'Kanji', 'O': 'Other'}
 
 BOUNDS = {
     'quick': {'model': 'one shape (char/type n-grams, dictionary, two tag models) with seeded concrete weights (VERIF_SEED)',
               'input': 'one line of 0..2 characters (predict) over {a, ｂ, ａ, あ, 1, ｶ, space, /, \\, NUL, any other scalar value that is not a key of the normalisation table (symbolic)}, and two lines of 0..2 characters over {a, あ, NUL, space}; evaluate: 1..2 reference lines from a catalogue',
+              'wsconst combinations': 'with an all-boundaries weight profile: ' + repr(WSCONSTS_WB) + ' on one line of 0..2 characters over {a, ａ, あ, ア, 人, 1}',
               'flags': 'every combination of --no-norm, --predict-tags, --scores, --tag-scores that clap accepts (a `requires` attribute read from the current source removes --tag-scores without --predict-tags); --wsconst in ' + repr(WSCONSTS)},
     'thorough': {'model': 'same shape, three weight seeds', 'input': '1..3 lines of 0..3 characters', 'flags': 'every combination; --wsconst in ' + repr(WSCONSTS + ['T', 'K', 'O'])},
 }
@@ -67,10 +69,12 @@ def table_keys():
 
 
 class SeededWeights:
-    def __init__(self, seed, bias=None):
-        self.seed = seed; self.d = {}
+    def __init__(self, seed, bias=None, profile=None):
+        self.seed = seed; self.d = {}; self.profile = profile
         if bias is not None:
             self.d['bias'] = bias
+        if profile == 'wb':
+            self.d['bias'] = 500       # every boundary is predicted as a word boundary: whatever a wsconst filter merges (or fails to merge) is visible
 
     def __getitem__(self, name):
         if name not in self.d:
@@ -110,6 +114,10 @@ def jobs(tier, seed):
                     js.append({'name': 'predict/s%d/%s%s%s%s/ws%s/l%d' % (sd, 'N' if no_norm else 'n', 'T' if tags else 't', 'S' if scores else 's', 'C' if tscores else 'c', ws or '-', nl),
                                'tool': 'predict', 'prog': 'predict', 'seed': sd, 'no_norm': no_norm, 'predict_tags': tags, 'scores': scores, 'tag_scores': tscores, 'wsconst': ws,
                                'lines': nl, 'maxc': maxc, 'alphabet': alpha, 'closed': nl > 1})
+        for ws in WSCONSTS_WB:
+            for no_norm in (False, True):
+                js.append({'name': 'predict/s%d/%sTsc/ws%s/l1/wb' % (sd, 'N' if no_norm else 'n', ws), 'tool': 'predict', 'prog': 'predict', 'seed': sd, 'no_norm': no_norm,
+                           'predict_tags': True, 'scores': False, 'tag_scores': False, 'wsconst': ws, 'lines': 1, 'maxc': 2, 'alphabet': 'aａあア人1', 'closed': True, 'profile': 'wb'})
         for metric in ('char', 'word'):
             for flags in range(4):
                 no_norm, tags = bool(flags & 1), bool(flags & 2)
@@ -122,9 +130,9 @@ def jobs(tier, seed):
 
 
 # ---------------------------------------------------------------------------------------------
-def build_env(e, prog, seed, bias=None):
+def build_env(e, prog, seed, bias=None, profile=None):
     """-> (ModelSpec, serialised model stream elements)"""
-    ms = P.fill_model(e, SHAPE, concrete=SeededWeights(seed, bias))
+    ms = P.fill_model(e, SHAPE, concrete=SeededWeights(seed, bias, profile))
     model = P.build_model(e, prog, ms)
     r = S.call(e, prog, 'Model', 'to_vec', [Ref(Cell(model))])
     if r.var != 'Ok':
@@ -243,7 +251,7 @@ def make(e, progs, job):
     prog = progs['predict']
 
     def harness(e):
-        ms, stream = e.memo(('model', job['seed']), lambda: build_env(e, prog, job['seed']))
+        ms, stream = e.memo(('model', job['seed'], job.get('profile')), lambda: build_env(e, prog, job['seed'], None, job.get('profile')))
         st['ms'] = ms
         lines = []
         for li in range(job['lines']):
@@ -263,7 +271,7 @@ def make(e, progs, job):
                            scores=job['scores'], tag_scores=job['tag_scores'], no_norm=job['no_norm'])
         e.cli = {'args': args, 'model_stream': stream, 'lines': strs, 'out': out, 'tty': False}
         e.grapheme_plan = pairs_plan
-        e.call_memo = {'Predictor::new': ('main', job['seed'], job['predict_tags'])}
+        e.call_memo = {'Predictor::new': ('main', job['seed'], job.get('profile'), job['predict_tags'])}
         r = e.call('main', [])
         e.call_memo = None
         e.check(r.var == 'Ok', 'tool exits successfully')
@@ -280,7 +288,7 @@ def make(e, progs, job):
             if job['tag_scores']:
                 S.call(e, prog, 'Predictor', 'store_tag_scores', [Ref(pc), True])
             return pc
-        pred = e.memo(('pred', job['seed'], want_tags, job['tag_scores']), mkpred)
+        pred = e.memo(('pred', job['seed'], job.get('profile'), want_tags, job['tag_scores']), mkpred)
         exp = []
         accepted = []
         for sv in strs:
